@@ -56,7 +56,17 @@ struct G {
             memcpy(b.data(), s.secret, 19);
             break;
         }
-        default: break;
+        default: {
+            // now and then the random source delivers something that looks like a fill pattern or a canary: it is as good an
+            // answer as any other, and the seed must carry exactly it. (Chosen by a hash of the bytes drawn, not by another draw.)
+            u64 h = mix64(0x43414E41, (u64)b[0] | (u64)b[1] << 8 | (u64)b[2] << 16 | (u64)b[3] << 24 | (u64)b[4] << 32);
+            if (h % 24 == 0) {
+                static const u8 fillv[] = {0xA5, 0x5A, 0xCC, 0xCD, 0xAA, 0x55};
+                unsigned k = (unsigned)((h >> 8) % 10);
+                for (int i = 0; i < 19; ++i) b[i] = k == 0 ? (u8)~i : k == 1 ? (u8)i : k == 2 ? (u8)(i + 1) : k == 3 ? (u8)(0xFF - 18 + i) : k < 10 ? fillv[k - 4] : 0;
+            }
+            break;
+        }
         }
         return b;
     }
@@ -616,6 +626,33 @@ static Plan make_C12(u64 seed, int variant) {
     return g.plan;
 }
 
+static Plan churn_plan(G& g, int variant) {
+    // churn by several threads at once over an allocator that hands the address released last to the next request
+    // (whoever makes it): every thread builds and frees its own seeds in a loop. Each thread's calls to the allocator
+    // seam must be what it makes alone, and nothing may stay allocated (a release swallowed or duplicated because of
+    // what another thread did in between shows in both).
+    g.plan.mode = "preempt";
+    g.plan.ntasks = g.ntasks = 2 + (int)g.rng.below(3);
+    g.alloc_fail_pct = (variant % 16 == 15) ? 10 : 0;
+    prologue(g, 1 + (int)g.rng.below(3), 0, (int)g.rng.below(3), (unsigned)g.rng.below(8) | 6, 7);
+    if (g.rng.chance(3, 4)) for (auto& o : g.plan.ops) if (o.kind == OP_CONFIG) o.a |= 1ull << 11;
+    int n = 3 + (int)g.rng.below(6);
+    for (int i = 0; i < n; ++i) for (int t = 0; t < g.ntasks; ++t) {
+        int s = (int)g.rng.below(2);
+        if (g.live(t, s)) g.free_seed(t, s);
+        switch (g.rng.below(4)) {
+        case 0: g.create(t, s, g.rng.below(8), g.secret_kind(), {g.clock_reading()}); break;
+        case 1: g.load_seed(t, s, g.fabricate((unsigned)g.rng.below(8))); break;
+        case 2: { AbsSeed sd = g.fabricate((unsigned)g.rng.below(8)); int li = g.pick_lang(); unsigned coin = g.pick_coin(); g.decode(t, s, g.valid_phrase(sd, li, coin, 0), coin, g.rng.chance(1, 2) ? -1 : li); break; }
+        default: { u8 bad[32]; AbsSeed sd = g.fabricate((unsigned)g.rng.below(32)); model::serialise(sd, bad); if (g.rng.chance(1, 2)) bad[8 + g.rng.below(24)] ^= 1 << g.rng.below(8); g.load_bytes(t, s, bad); break; }
+        }
+        if (g.live(t, s) && g.rng.chance(1, 2)) g.free_seed(t, s);
+        if (g.rng.chance(1, 8)) g.emit(OP_FREENULL, t, 0);
+    }
+    for (int t = 0; t < g.ntasks; ++t) for (int s = 0; s < 2; ++s) if (g.live(t, s)) g.free_seed(t, s);
+    return g.plan;
+}
+
 static Plan make_C15(u64 seed, int variant) {
     G g(seed); g.plan.prop = "C15";
     g.allow_chain = false;      // the single-fault enumeration compares operation by operation; inputs must not depend on earlier outputs
@@ -645,32 +682,7 @@ static Plan make_C15(u64 seed, int variant) {
         for (auto& ts : all) { if (g.rng.chance(1, 10)) g.store(ts.first, ts.second); g.free_seed(ts.first, ts.second); }
         return g.plan;
     }
-    if (variant % 8 == 7) {
-        // churn by several threads at once over an allocator that hands the address released last to the next request
-        // (whoever makes it): every thread builds and frees its own seeds in a loop. Each thread's calls to the allocator
-        // seam must be what it makes alone, and nothing may stay allocated (a release swallowed or duplicated because of
-        // what another thread did in between shows in both).
-        g.plan.mode = "preempt";
-        g.plan.ntasks = g.ntasks = 2 + (int)g.rng.below(3);
-        g.alloc_fail_pct = (variant % 16 == 15) ? 10 : 0;
-        prologue(g, 1 + (int)g.rng.below(3), 0, (int)g.rng.below(3), (unsigned)g.rng.below(8) | 6, 7);
-        if (g.rng.chance(3, 4)) for (auto& o : g.plan.ops) if (o.kind == OP_CONFIG) o.a |= 1ull << 11;
-        int n = 3 + (int)g.rng.below(6);
-        for (int i = 0; i < n; ++i) for (int t = 0; t < g.ntasks; ++t) {
-            int s = (int)g.rng.below(2);
-            if (g.live(t, s)) g.free_seed(t, s);
-            switch (g.rng.below(4)) {
-            case 0: g.create(t, s, g.rng.below(8), g.secret_kind(), {g.clock_reading()}); break;
-            case 1: g.load_seed(t, s, g.fabricate((unsigned)g.rng.below(8))); break;
-            case 2: { AbsSeed sd = g.fabricate((unsigned)g.rng.below(8)); int li = g.pick_lang(); unsigned coin = g.pick_coin(); g.decode(t, s, g.valid_phrase(sd, li, coin, 0), coin, g.rng.chance(1, 2) ? -1 : li); break; }
-            default: { u8 bad[32]; AbsSeed sd = g.fabricate((unsigned)g.rng.below(32)); model::serialise(sd, bad); if (g.rng.chance(1, 2)) bad[8 + g.rng.below(24)] ^= 1 << g.rng.below(8); g.load_bytes(t, s, bad); break; }
-            }
-            if (g.live(t, s) && g.rng.chance(1, 2)) g.free_seed(t, s);
-            if (g.rng.chance(1, 8)) g.emit(OP_FREENULL, t, 0);
-        }
-        for (int t = 0; t < g.ntasks; ++t) for (int s = 0; s < 2; ++s) if (g.live(t, s)) g.free_seed(t, s);
-        return g.plan;
-    }
+    if (variant % 8 == 7) return churn_plan(g, variant);
     prologue(g, 1 + (int)g.rng.below(3), (int)g.rng.below(2), (int)g.rng.below(3), (unsigned)g.rng.below(8), g.rng.below(8));
     Weights w; w.create = 10; w.load = 8; w.loadbad = 8; w.decode = 10; w.decodebad = 10; w.fabricate = 10; w.free_ = 10; w.freenull = 3; w.keygen = 1; w.get = 1; w.enable = 4;
     walk(g, (variant != 0 && variant % 250 == 249) ? 800 + (int)g.rng.below(800) : 4 + (int)g.rng.below(30), w, true);
@@ -753,7 +765,9 @@ static Plan make_C18(u64 seed, int variant) {
 static Plan make_C20(u64 seed, int variant) {
     G g(seed); g.plan.prop = "C20"; g.plan.mode = "preempt";
     choose_langs(g);
-    (void)variant;
+    // one history in ten: build-and-free churn over the recycling allocator (what one thread releases the next request of any
+    // thread receives): a release dropped or duplicated because of what another thread did in between breaks serial equivalence
+    if (variant % 10 == 9 && variant % 300 != 299) return churn_plan(g, variant);
     g.plan.ntasks = g.ntasks = g.rng.chance(1, 5) ? 5 + (int)g.rng.below(3) : 2 + (int)g.rng.below(3);      // a few runs with more threads than any small fixed pool
     prologue(g, (int)g.rng.below(4), (int)g.rng.below(2), (int)g.rng.below(3), (unsigned)g.rng.below(8), g.rng.below(8));
     if (g.rng.chance(1, 3)) {   // the application (re)configures the library from more than one thread before it starts working
